@@ -14,6 +14,7 @@ def run(facts, tier):
         ("copy coherence", lambda fa: [o for o in c19_rules.assign_fast_paths(fa) if o["key"].startswith("bloom_filter_alloc")] + [o for o in c19_rules.special_members(fa) if o["key"].startswith("bloom_filter_alloc") and o["key"].split(":")[-1] in ("is_dirty_", "num_bits_set_", "bit_array_", "capacity_bits_", "seed_", "num_hashes_")], 10, "copies and assignments carry the dirty marker, the cached count and the hashing parameters together with the bit array on every path"),
         ("index agreement", B.index_agreement, 3, "update, query and query_and_update probe the same bit positions"),
         ("compatibility", B.compat, 3, "set operations are dominated by the compatibility check"),
+        ("recount order", B.recount_before_writes, 1, "a function that sets bits and adjusts the cached count incrementally takes the recount of a stale cache before the first bit write"),
         ("bit operations", B.bitops, 3, "union/intersect/invert combine every byte and count the result byte on every iteration"),
         ("overload siblings", B.overload_siblings, 20, "update(T), query(T), query_and_update(T) canonicalise and hash identically"),
         ("reset completeness", lambda fa: c19_rules.reset_completeness(fa, ['bloom_filter_alloc']), 2, "every field a mutator modifies is re-initialised by reset() (a reused object equals a fresh one); reviewed exceptions are configuration fields"),
